@@ -43,9 +43,14 @@ func RunStream(srv *vgirpc.Server, method, script string, inSchema *arrow.Schema
 	cr, sw := io.Pipe()
 	done := make(chan struct{})
 	go func() {
+		defer func() {
+			if r := recover(); r != nil {
+				v.Note = "panic escaped Serve"
+			}
+			sw.Close()
+			close(done)
+		}()
 		srv.ServeWithContext(context.Background(), sr, sw)
-		sw.Close()
-		close(done)
 	}()
 	go func() {
 		cw.Write(httpx.InitBody(method, script, nil))
